@@ -191,11 +191,16 @@ pub enum QueryRequest<C> {
     Grpc(GrpcQuery),
 }
 
-// ---- Api: address validation is an uninterpreted partial identity
+// ---- Api: address validation / canonicalisation are fixed uninterpreted functions of the string (one Api object
+// is passed down every call of a transaction; two different Api objects are never related by a contract)
+pub uninterp spec fn spec_valid_addr(s: Seq<char>) -> bool;
+pub uninterp spec fn spec_canon_addr(s: Seq<char>) -> StdResult<CanonicalAddr>;
+pub struct CanonicalAddr { pub b: Binary }
 pub trait Api {
-    spec fn valid_addr(&self, s: Seq<char>) -> bool;
     fn addr_validate(&self, human: &str) -> (r: StdResult<Addr>)
-        ensures (r is Ok) == self.valid_addr(human@), r is Ok ==> r.unwrap().s@ == human@;
+        ensures (r is Ok) == spec_valid_addr(human@), r is Ok ==> r.unwrap().s@ == human@;
+    fn addr_canonicalize(&self, human: &str) -> (r: StdResult<CanonicalAddr>)
+        ensures r == spec_canon_addr(human@);
 }
 
 // ---- queriers: a querier is characterised by the snapshot of chain state (and block) it answers from
@@ -214,7 +219,8 @@ impl<'a, C> QuerierWrapper<'a, C> {
 // ---- the repo's response type (src/executor.rs); plain data, mirrored so every group sees the same type
 pub struct AppResponse { pub events: Vec<Event>, pub data: Option<Binary> }
 impl AppResponse {
-    pub fn default() -> (r: AppResponse) ensures r.events@.len() == 0, r.data is None { AppResponse { events: Vec::new(), data: None } }
+    #[verifier::external_body]
+    pub fn default() -> (r: AppResponse) ensures r.events == vec_of(Seq::<Event>::empty()), r.data is None { AppResponse { events: Vec::new(), data: None } }
 }
 impl Clone for AppResponse { #[verifier::external_body] fn clone(&self) -> (r: Self) ensures r == *self { AppResponse { events: self.events.clone(), data: self.data.clone() } } }
 
@@ -241,3 +247,45 @@ pub fn fmt_debug_err(e: &AnyError) -> (r: String) ensures r == spec_err_text(*e)
 
 #[verifier::external_body]
 pub fn fmt_wasm_prefix(ty: &String) -> (r: String) ensures r@ == "wasm-"@ + ty@ { String::new() }
+
+// ---- conversions (From impls of cosmwasm_std), with their meaning as spec
+impl vstd::std_specs::convert::FromSpecImpl<Addr> for String {
+    open spec fn obeys_from_spec() -> bool { true }
+    open spec fn from_spec(a: Addr) -> String { a.s }
+}
+impl From<Addr> for String { fn from(a: Addr) -> (r: String) { a.s } }
+impl<'a> vstd::std_specs::convert::FromSpecImpl<&'a Addr> for String {
+    open spec fn obeys_from_spec() -> bool { true }
+    open spec fn from_spec(a: &'a Addr) -> String { a.s }
+}
+impl<'a> From<&'a Addr> for String { #[verifier::external_body] fn from(a: &'a Addr) -> (r: String) { a.s.clone() } }
+impl vstd::std_specs::convert::FromSpecImpl<Vec<u8>> for Binary {
+    open spec fn obeys_from_spec() -> bool { true }
+    open spec fn from_spec(v: Vec<u8>) -> Binary { Binary { b: v } }
+}
+impl From<Vec<u8>> for Binary { fn from(v: Vec<u8>) -> (r: Binary) { Binary { b: v } } }
+impl<T> vstd::std_specs::convert::FromSpecImpl<BankMsg> for CosmosMsg<T> {
+    open spec fn obeys_from_spec() -> bool { true }
+    open spec fn from_spec(m: BankMsg) -> CosmosMsg<T> { CosmosMsg::Bank(m) }
+}
+impl<T> From<BankMsg> for CosmosMsg<T> { fn from(m: BankMsg) -> (r: CosmosMsg<T>) { CosmosMsg::Bank(m) } }
+impl<T> vstd::std_specs::convert::FromSpecImpl<WasmMsg> for CosmosMsg<T> {
+    open spec fn obeys_from_spec() -> bool { true }
+    open spec fn from_spec(m: WasmMsg) -> CosmosMsg<T> { CosmosMsg::Wasm(m) }
+}
+impl<T> From<WasmMsg> for CosmosMsg<T> { fn from(m: WasmMsg) -> (r: CosmosMsg<T>) { CosmosMsg::Wasm(m) } }
+
+// ---- equality of addresses is equality of the values
+impl vstd::std_specs::cmp::PartialEqSpecImpl for Addr {
+    open spec fn obeys_eq_spec() -> bool { true }
+    open spec fn eq_spec(&self, other: &Addr) -> bool { *self == *other }
+}
+impl PartialEq for Addr {
+    #[verifier::external_body]
+    fn eq(&self, other: &Addr) -> (r: bool) { self.s == other.s }
+}
+impl Eq for Addr {}
+
+pub uninterp spec fn spec_u64_text(n: u64) -> Seq<char>;
+#[verifier::external_body]
+pub fn u64_to_string(n: u64) -> (r: String) ensures r@ == spec_u64_text(n) { n.to_string() }
